@@ -133,6 +133,36 @@ func c19DBDriven(c *fw.Case) {
 	opts := dbOptSet{Memstore: 1 << 30, Threshold: gen.Pick(r, 0, 1, 3), MaxSize: gen.Pick(r, uint64(400), 1<<40), Ratio: gen.Pick(r, float32(0.2), 1), ReadBuf: 4096, WriteBuf: 4096}
 	c.HashAdd("driven", opts.String())
 	censuses := 0
+	// one driven case in three starts with sessions on the FRESH directory that only delete (nothing to flush but
+	// tombstones, no table below them)
+	if r.Intn(3) == 0 {
+		for pre := 0; pre < 2; pre++ {
+			db, err := simpledb.NewSimpleDB(dir, opts.Options()...)
+			if err == nil {
+				err = db.Open()
+			}
+			if err != nil {
+				c.Violate("resources/open-error", "delete-only session %d: %v", pre, err)
+				return
+			}
+			for j := 0; j < 1+r.Intn(5); j++ {
+				_ = db.Delete(fmt.Sprintf("k%d", r.Intn(12)))
+			}
+			if r.Intn(2) == 0 {
+				_ = db.VerifForceRotate()
+				waitFlushIdle(60 * time.Second)
+			}
+			if err := db.Close(); err != nil {
+				c.Violate("resources/close-error", "%v", err)
+				return
+			}
+			c.Obs("delete_only_sessions_on_a_fresh_directory", 1)
+			if !afterCloseCensus(c, dir, "delete-only-session", fmt.Sprintf("delete-only session %d [%s]", pre, opts)) {
+				return
+			}
+			censuses++
+		}
+	}
 	for session := 0; session < 2; session++ {
 		db, err := simpledb.NewSimpleDB(dir, opts.Options()...)
 		if err == nil {
